@@ -1,5 +1,6 @@
 """C09 — Light hardware output equals the priority stack's colour."""
 import math
+import sys
 
 from vlib import Suite, zlist, zlit, coqlist
 
@@ -40,7 +41,10 @@ PALETTE = [[255, 0, 0], [0, 255, 0], [0, 0, 255], [255, 255, 255], [0, 0, 0], [7
            [254, 255, 253], [10, 200, 90]]
 TICK = 0.125
 T_OFF = 1000000           # model time of tick 0 (ms)
-KIND_NAMES = {0: "rgb", 1: "white", 2: "rgbw", 3: "driverlight", 4: "direct", 5: "batch", 6: "rgb+profile"}
+KIND_NAMES = {0: "rgb", 1: "white", 2: "rgbw", 3: "driverlight", 4: "direct", 5: "batch", 6: "rgb+profile",
+              7: "rgbw-white_only", 8: "rgbw-min_rgb"}
+RGBW_STYLE = {7: "white_only", 8: "min_rgb"}
+VIRTUAL_KINDS = (0, 1, 2, 6, 7, 8)
 PROFILE = {"gamma": 2.5, "whitepoint": [0.9, 0.8, 0.7], "linear_slope": 1.0, "linear_cutoff": 0.0}
 POOL = 30                 # lights of each configured kind per boot
 
@@ -96,12 +100,39 @@ def fade_ticks(fade):
 
 
 def gen_grid(rng, tier, i):
-    return _gen_ops(rng, FADES, [0, 0, 1, 2, 3, 3, 3, 4, 4])
+    c = _gen_ops(rng, FADES, [0, 0, 1, 2, 3, 3, 3, 4, 4, 6, 7, 8])
+    # _get_color_and_fade(stack, max_fade_ms) is sampled every tick for these max_fade_ms
+    c["mfs"] = rng.choice([[], [125, 250], [250], [500, 125]])
+    return c
+
+
+# fade lengths off the 125 ms grid for which the float arithmetic of RGBColor.blend cannot round across an integer:
+# int((end-start) * ratio) differs from the exact quotient only if (end-start)*elapsed/length is an integer, and
+# elapsed is a multiple of 125 ms (commands are issued on ticks).  Lengths q*m with q prime > 255 and m <= 125
+# never divide (end-start)*125*j for 0 < 125*j < length (checked below).
+OFFGRID_FADES = [257, 263, 331, 499, 514, 771, 997, 1021, 1285, 1499, 2003, 2570, 2999]
+
+
+def _check_offgrid():
+    for den in OFFGRID_FADES:
+        for j in range(1, den // 125 + 1):
+            for d in range(1, 256):
+                assert (d * 125 * j) % den != 0, (den, j, d)
+
+
+_check_offgrid()
+
+
+def gen_offgrid(rng, tier, i):
+    fades = [0, 0, 0] + OFFGRID_FADES + [125, 500, 1000]
+    c = _gen_ops(rng, fades, [0, 0, 1, 2, 6, 7, 8])
+    c["mfs"] = []
+    return c
 
 
 def gen_generic(rng, tier, i):
     fades = [0, 0, 25, 50, 100, 125, 175, 300, 375, 450, 750, 1100, 1500, 2900]
-    return _gen_ops(rng, fades, [0, 1, 2, 3, 4, 5, 5, 5, 6, 6])
+    return _gen_ops(rng, fades, [0, 1, 2, 3, 4, 5, 5, 5, 6, 7, 8])
 
 
 # ------------------------------------------------------------------------------------------------
@@ -121,6 +152,8 @@ def _config():
         lights["dir%d" % i] = {"number": str(500 + i), "subtype": "matrix"}
         lights["bat%d" % i] = {"number": str(700 + i), "subtype": "matrix"}
         lights["cc%d" % i] = {"number": str(900 + i), "subtype": "led", "color_correction_profile": "p1"}
+        lights["rwo%d" % i] = {"start_channel": "u%d" % i, "subtype": "led", "type": "rgbw"}
+        lights["rmn%d" % i] = {"start_channel": "v%d" % i, "subtype": "led", "type": "rgbw"}
     return {"mpf": {"default_light_hw_update_hz": 8}, "coils": coils, "lights": lights,
             "light_settings": {"color_correction_profiles": {"p1": dict(PROFILE)}}}
 
@@ -136,6 +169,7 @@ def _install_recorders():
     from mpf.devices.light import Light
 
     rec = _R["rec"] = {"cmds": [], "hw": [], "fired": []}
+    _R["hwlast"] = {}
 
     o_vsf = VirtualLight.set_fade
 
@@ -168,7 +202,7 @@ def _install_recorders():
     o_rfo = Light._remove_fade_out
 
     def rfo(self, key):
-        rec["fired"].append((self.name, key))
+        rec["fired"].append((self.name, key, self.machine.clock.get_time()))
         return o_rfo(self, key)
     Light._remove_fade_out = rfo
 
@@ -217,7 +251,7 @@ def _boot():
             pass
     rig = Rig(_config()).start()
     _R["rig"] = rig
-    _R["used"] = {k: 0 for k in range(7)}
+    _R["used"] = {k: 0 for k in range(9)}
     m = rig.machine
     rec = _R["rec"]
 
@@ -233,13 +267,20 @@ def _boot():
         d.hw_drivers["white"] = [_R["RecDirect"]("d%d" % i, m.clock.loop)]
         b = m.lights["bat%d" % i]
         b.hw_drivers["white"] = [_R["RecBatch"]("b%03d" % i, bs)]
+        # the RGBW style is a machine-wide setting (mpf: rgbw_white_behavior) which Light._initialize copies into
+        # the light; one machine serves all three styles here
+        for k, pre in ((7, "rwo"), (8, "rmn")):
+            lt = m.lights["%s%d" % (pre, i)]
+            if lt._rbgw_style is None:
+                raise AssertionError("RGBW light without a style")
+            lt._rbgw_style = RGBW_STYLE[k]
 
 
 def worker_init():
     _boot()
 
 
-PREFIX = {0: "rgb", 1: "white", 2: "rgbw", 3: "drv", 4: "dir", 5: "bat", 6: "cc"}
+PREFIX = {0: "rgb", 1: "white", 2: "rgbw", 3: "drv", 4: "dir", 5: "bat", 6: "cc", 7: "rwo", 8: "rmn"}
 
 
 def _fresh_light(kind):
@@ -281,6 +322,7 @@ def run_history(case):
         byt.setdefault(o[0], []).append(o)
     ticks = []
     errors = []
+    hwlast = [None]
 
     def tm(t):
         if t <= 0:
@@ -307,6 +349,8 @@ def run_history(case):
         hw = [[1, int(round(b * 255 * 1024)), int(round(f))] for (i, b, f) in rec["hw"] if i in ids]
         hwraw = [[b, f] for (i, b, f) in rec["hw"] if i in ids]
         del rec["hw"][:]
+        if hwraw:
+            hwlast[0] = hwraw[-1][0]
         return cm, hw, hwraw
 
     for t in range(case["nticks"]):
@@ -314,7 +358,13 @@ def run_history(case):
         d = target - rig.now()
         if d > 0:
             rig.advance(d)
-        fired = [k for (n, k) in rec["fired"] if n == light.name]
+        fired = []
+        for (n, k, ft) in rec["fired"]:
+            if n == light.name:
+                if fired and fired[-1][0] == tm(ft):
+                    fired[-1][1].append(k)
+                else:
+                    fired.append([tm(ft), [k]])
         del rec["fired"][:]
         pre = list(light.get_color())
         for o in byt.get(t, []):
@@ -331,7 +381,17 @@ def run_history(case):
         rig.advance(0)
         post = list(light.get_color())
         cm, hw, hwraw = drain()
-        tkrec = {"fired": fired, "pre": pre, "post": post, "cmds": cm, "hw": hw, "hwraw": hwraw, "fac": fac}
+        # what the hardware shows (virtual lights: VirtualLight.current_brightness) / was last told (fade channel, batch)
+        if kind in VIRTUAL_KINDS:
+            hwnow = [c.current_brightness for c in chans]
+        else:
+            hwnow = [0.0 if hwlast[0] is None else hwlast[0]]
+        cf = []
+        for mf in case.get("mfs", []):
+            c_, f_, d_ = light._get_color_and_fade(light.stack, mf)
+            cf.append([3, mf] + list(c_) + [int(f_), 1 if d_ else 0])
+        tkrec = {"fired": fired, "pre": pre, "post": post, "cmds": cm, "hw": hw, "hwraw": hwraw, "fac": fac,
+                 "hwnow": hwnow, "cfade": cf}
         if t in brt:
             fac = set_brightness(brt[t])       # in effect from the next tick on
             cm2, hw2, _ = drain()
@@ -341,7 +401,7 @@ def run_history(case):
         ticks.append(tkrec)
     # at rest: what the hardware shows / was last told
     final = []
-    if kind in (0, 1, 2, 6):
+    if kind in VIRTUAL_KINDS:
         final = [c.current_brightness for c in chans]
     else:
         lastb = None
@@ -377,15 +437,24 @@ def coq_grid(case, out):
         byt.setdefault(o[0], []).append(o)
     tks = []
     exp = []
+    mfs = zlist(case.get("mfs", []))
     for t, tk in enumerate(out["ticks"]):
-        tks.append("(mkTick %s %s %s %s)" % (zlit(T_OFF + 125 * t), zlit(tk["fac"]), zlist([KEYS.index(k) for k in tk["fired"]]),
-                                          coqlist(cop(o) for o in byt.get(t, []))))
-        rows = [tk["pre"] + tk["post"] + [0]] + tk["cmds"] + tk["hw"]
+        fired = coqlist("(%s, %s)" % (zlit(ft), zlist([KEYS.index(k) for k in ks])) for ft, ks in tk["fired"])
+        tks.append("(mkTick %s %s %s %s %s)" % (zlit(T_OFF + 125 * t), zlit(tk["fac"]), fired,
+                                             coqlist(cop(o) for o in byt.get(t, [])), mfs))
+        rows = ([tk["pre"] + tk["post"] + [0]] + [[2] + [int(round(b * 255 * 1024)) for b in tk["hwnow"]]] + tk["cfade"] +
+                tk["cmds"] + tk["hw"])
         exp.append(coqlist(zlist(r) for r in rows))
     return "((%s, %s), %s)" % (zlit(case["kind"]), coqlist(tks), coqlist(exp))
 
 
-HDR = "From C09 Require Import Model.\nDefinition run := run_case.\nDefinition out_eqb := case_out_eqb.\n"
+def _ptab_coq():
+    return coqlist(zlist(row) for row in profile_table())
+
+
+def hdr():
+    return ("From C09 Require Import Model.\nDefinition ptab : list (list Z) := %s.\n"
+            "Definition run := run_case ptab.\nDefinition out_eqb := case_out_eqb.\n" % _ptab_coq())
 
 
 # ------------------------------------------------------------------------------------------------
@@ -426,6 +495,10 @@ def chan_map(kind, c):
         return [r, g, b]
     if kind == 2:
         return [r - m, g - m, b - m, m]
+    if kind == 7:          # white_only: any shade of white goes to the white channel alone
+        return [0, 0, 0, r] if r == g == b else [r, g, b, 0]
+    if kind == 8:          # min_rgb: white is the minimum, RGB unchanged
+        return [r, g, b, m]
     return [m]
 
 
@@ -531,6 +604,359 @@ def oracle(case, out):
     return res
 
 
+# ------------------------------------------------------------------------------------------------
+# suite `batch`: PlatformBatchLightSystem / PlatformBatchLight on their own (no machine), model coq/C09/Batch.v
+B_T0 = 1000000
+B_BASE = 1000.0
+ID_SETS = [[0, 1, 2, 4, 5], [0, 2, 3, 4, 7], [1, 2, 3, 4, 5], [0, 3, 6], [2, 3]]
+B_FADES = [0, 0, 0, 100, 125, 175, 250, 257, 300, 331, 375, 500, 640, 750, 1000, 1100, 1499, 2000]
+B_LEVELS = [0, 0, 255, 255, 128, 77, 1, 254, 51, 102, 204]
+
+
+def gen_batch(rng, tier, i):
+    ids = rng.choice(ID_SETS)
+    maxf = rng.choice([0, 125, 250, 250, 250, 500])
+    poll = rng.choice([125, 125, 125, 250])
+    maxb = rng.choice([1, 2, 2, 3, 8])
+    nops = rng.randint(2, 10)
+    levels = rng.sample(B_LEVELS, 4) if rng.random() < 0.5 else B_LEVELS
+
+    def fade_op(t_for_start=None):
+        lid = rng.choice(ids)
+        tb = rng.choice(levels)
+        r = rng.random()
+        if r < 0.4:
+            return [lid, tb, -1, tb, 0]                       # instant (what Light sends: start = target, no times)
+        fade = rng.choice(B_FADES[3:])
+        sb = rng.choice(levels)
+        back = rng.choice([0, 0, 0, 1, 2, 5])                 # the fade started `back` ticks ago (stack change revealing it)
+        return [lid, sb, back, tb, fade]
+    ops = []
+    t = 1
+    for _ in range(nops):
+        r = rng.random()
+        if r < 0.35:
+            pass
+        elif r < 0.8:
+            t += rng.randint(1, 3)
+        else:
+            t += rng.randint(4, 9)
+        ops.append([t] + fade_op())
+    cb = {}
+    if rng.random() < 0.6:
+        for k in rng.sample(range(0, 14), rng.randint(1, 5)):
+            cb[str(k)] = [rng.choice([0, 1, 1, 2, 3]), [fade_op() for _ in range(rng.choice([0, 1, 1, 2]))]]
+    longest = max([o[5] for o in ops] + [o[4] for v in cb.values() for o in v[1]] + [0])
+    nticks = t + int(math.ceil(longest / 125.0)) + 4
+    return {"ids": ids, "maxf": maxf, "poll": poll, "maxb": maxb, "ops": ops, "cb": cb, "nticks": nticks}
+
+
+def run_batch(case):
+    import asyncio
+    from mpf.tests.loop import TimeTravelLoop, TestClock
+    from mpf.core.platform_batch_light_system import PlatformBatchLight, PlatformBatchLightSystem
+
+    trace = []
+    errors = []
+    loop = TimeTravelLoop()
+    loop.set_time(B_BASE)
+    clock = TestClock(loop)
+    maxf = case["maxf"]
+
+    def ms(t):
+        if t <= 0:
+            return int(t)
+        return int(round((t - B_BASE) * 1000)) + B_T0
+
+    class Ev(asyncio.Event):
+        def __init__(self, name):
+            super().__init__()
+            self._nm = name
+
+        def clear(self):
+            if self._nm == "dirty":
+                trace.append(["wake", ms(loop.time())])
+            super().clear()
+
+    class ClockProxy:
+        def __init__(self):
+            self.loop = loop
+
+        def get_time(self):
+            t = clock.get_time()
+            if sys._getframe(1).f_code.co_name == "_schedule_updates":
+                trace.append(["sched", ms(t)])
+            return t
+
+    class RL(PlatformBatchLight):
+        __slots__ = []
+
+        def get_max_fade_ms(self):
+            return maxf
+
+        def get_board_name(self):
+            return "rec"
+
+        def is_successor_of(self, other):
+            return self.number == other.number + 1
+
+        def __lt__(self, other):
+            return self.number < other.number
+
+    lights = {}
+    cur = {}            # current fade of every light as the harness issued it (floats)
+    ncb = [0]
+
+    def do_set(o):
+        lid, sb, back, tb, fade = o
+        now = loop.time()
+        if fade == 0:
+            args = (sb / 255.0, -1, tb / 255.0, -1)
+            margs = [lid, sb, -1, tb, -1]
+        else:
+            st = now - back * 0.125
+            args = (sb / 255.0, st, tb / 255.0, st + fade / 1000.0)
+            margs = [lid, sb, ms(st), tb, ms(st) + fade]
+        cur.setdefault(lid, [(0, 0)]).append((sb, tb))
+        trace.append(["set", ms(now)] + margs)
+        lights[lid].set_fade(*args)
+
+    async def cb(items):
+        k = ncb[0]
+        ncb[0] += 1
+        trace.append(["cb", ms(loop.time()), [[l.number, b, f] for (l, b, f) in items],
+                      [[list(x) for x in cur.get(l.number, [(0, 0)])] for (l, b, f) in items]])
+        for (l, b, f) in items:
+            cur[l.number] = cur.get(l.number, [(0, 0)])[-1:]
+        yk, ops = case["cb"].get(str(k), [0, []])
+        if yk == 1:
+            await asyncio.sleep(0)
+        elif yk == 2:
+            await asyncio.sleep(0.125)
+        elif yk == 3:
+            await asyncio.sleep(0.25)
+        for o in ops:
+            do_set(o)
+        trace.append(["cbret", ms(loop.time())])
+
+    bs = PlatformBatchLightSystem(ClockProxy(), cb, 1000 // case["poll"], case["maxb"])
+    bs.dirty_lights_changed = Ev("dirty")
+    bs.schedule_changed = Ev("sched")
+    for i in case["ids"]:
+        lights[i] = RL(i, bs)
+    try:
+        bs.start()
+
+        def adv_to(t):
+            d = t - loop.time()
+            loop.run_until_complete(asyncio.sleep(d if d > 0 else 0))
+
+        def dump():
+            lst = {}
+            for l, v in bs.last_state.items():
+                lst[l.number] = v
+            trace.append(["dump", ms(loop.time()),
+                          int(bs.dirty_lights_changed.is_set()), int(bs.schedule_changed.is_set()),
+                          [l.number for l in bs.dirty_lights],
+                          [[ms(t), l.number] for (t, l) in bs.dirty_schedule],
+                          [[i, lights[i]._last_brightness, lst.get(i, [None, None])[0],
+                            None if i not in lst else ms(lst[i][1])] for i in case["ids"]]])
+        byt = {}
+        for o in case["ops"]:
+            byt.setdefault(o[0], []).append(o[1:])
+        t = 0
+        seen = -1
+        busy_until = 0
+        while t < case["nticks"] or t < busy_until + 5:
+            mark = len(trace)
+            adv_to(B_BASE + t * 0.125)
+            for o in byt.get(t, []):
+                do_set(o)
+            # everything runnable at this instant runs (no timer lies strictly inside a tick)
+            adv_to(B_BASE + t * 0.125 + 0.0625)
+            if bs.dirty_lights or bs.dirty_schedule or any(r[0] in ("set", "cb") for r in trace[mark:]):
+                busy_until = t
+            if len(trace) != seen:
+                dump()              # something happened since the last observation: observe the complete state
+                seen = len(trace)
+            t += 1
+            if t > 600:
+                errors.append("the batch system does not come to rest")
+                break
+        dump()
+        for tk in (bs.update_task, bs.scheduler_task):
+            if tk.done() and not tk.cancelled() and tk.exception():
+                errors.append("task died: %r" % (tk.exception(),))
+    except Exception as e:   # noqa
+        errors.append("%s: %s" % (type(e).__name__, e))
+    finally:
+        try:
+            bs.stop()
+            loop.run_until_complete(asyncio.sleep(0))
+            loop.close()
+        except BaseException:
+            pass
+    return {"trace": trace, "errors": errors}
+
+
+def bround(b):
+    return -1 if b is None else int(round(b * 255 * 1024))
+
+
+def batch_events(case, out):
+    """the history of atomic blocks, and the rows the model has to produce for it"""
+    evs = []
+    exp = []
+    tr = out["trace"]
+    hw = {i: 0.0 for i in case["ids"]}
+    n = len(tr)
+    j = 0
+    incb = False
+    while j < n:
+        r = tr[j]
+        kind = r[0]
+        if kind == "set":
+            evs.append("(%d, ESet %s)" % (r[1], " ".join(zl(x) for x in r[2:])))
+        elif kind == "sched":
+            evs.append("(%d, ESched)" % r[1])
+            exp.append([2, 1])
+        elif kind in ("wake", "cbret"):
+            if kind == "cbret":
+                incb = False
+            row = [1, 1]
+            if j + 1 < n and tr[j + 1][0] == "cb":
+                for (i, b, f) in tr[j + 1][2]:
+                    row += [i, bround(b), f]
+                    hw[i] = b
+                incb = True
+            evs.append("(%d, ESend)" % r[1])
+            exp.append(row)
+        elif kind == "cb":
+            pass
+        elif kind == "dump":
+            evs.append("(%d, EDump %s)" % (r[1], _zl(case["ids"])))
+            exp.append([4, r[2], r[3], 1 if incb else 0, 1])
+            exp.append([5] + r[4])
+            exp.append([6] + [x for e in r[5] for x in e])
+            for (i, lb, sb, st) in r[6]:
+                exp.append([7, i, bround(lb), bround(sb), -1 if st is None else st, bround(hw[i])])
+        j += 1
+    return evs, exp
+
+
+def zl(x):
+    return "(%d)" % x if x < 0 else "%d" % x
+
+
+def _zl(l):
+    return "[" + "; ".join(zl(x) for x in l) + "]"
+
+
+def fragile(out):
+    """two different floats for (rationally) the same brightness of one light: the code's float == and the
+    model's exact == may disagree"""
+    seen = {}
+    for r in out["trace"]:
+        if r[0] == "cb":
+            for (i, b, f) in r[2]:
+                for b2 in seen.setdefault(i, set()):
+                    if b2 != b and abs(b2 - b) < 1e-9:
+                        return True
+                seen[i].add(b)
+    return False
+
+
+def coq_batch(case, out, fixed=True):
+    if out["errors"] or fragile(out):
+        return None
+    evs, exp = batch_events(case, out)
+    cfg = "(mkCfg %d %d %d %d %s)" % (case["maxf"], case["poll"], case["poll"], case["maxb"], "true" if fixed else "false")
+    return "((%s, [%s]), [%s])" % (cfg, "; ".join(evs), "; ".join(_zl(r) for r in exp))
+
+
+def oracle_batch(case, out):
+    fails = []
+    if out["errors"]:
+        return [{"sig": "batch-exception", "what": "the batch light system raised: %s" % out["errors"][:2]}]
+    hw = {i: 0.0 for i in case["ids"]}
+    want = {i: 0 for i in case["ids"]}
+    for r in out["trace"]:
+        if r[0] == "set":
+            want[r[2]] = r[5]
+        elif r[0] == "cb":
+            for (i, b, f), fds in zip(r[2], r[3]):
+                hw[i] = b
+                # the fades this light was given since it was last transmitted (a brightness computed just before a
+                # new set_fade may still be in the sender's hands)
+                if not any(min(sb, tb) / 255.0 - 1e-9 <= b <= max(sb, tb) / 255.0 + 1e-9 for (sb, tb) in fds):
+                    fails.append({"sig": "batch-brightness-outside-fade",
+                                  "what": "light %d was sent brightness %r, outside the endpoints of its fade(s) %s (x/255)"
+                                          % (i, b, fds)})
+                if f < 0 or f > max(case["maxf"], 0) + case["poll"]:
+                    fails.append({"sig": "batch-fade-too-long", "what": "light %d: fade_ms %r, max_fade_ms %d" % (i, f, case["maxf"])})
+    last = [r for r in out["trace"] if r[0] == "dump"][-1]
+    if last[4] or last[5]:
+        fails.append({"sig": "batch-not-at-rest", "what": "5 idle ticks after the last transmission lights are still dirty %s / "
+                      "scheduled %s" % (last[4], last[5])})
+    for i in case["ids"]:
+        if abs(hw[i] - want[i] / 255.0) > 1e-9:
+            fails.append({"sig": "batch-hw-differs-at-rest",
+                          "what": "all fades finished and the batch system is idle: light %d was last sent brightness %r, its "
+                                  "last set_fade asked for %d/255 (max_fade_ms %d, batch size %d, callback script %s)"
+                                  % (i, hw[i], want[i], case["maxf"], case["maxb"], case["cb"])})
+            break
+    seen = set()
+    return [f for f in fails if not (f["sig"] in seen or seen.add(f["sig"]))]
+
+
+
+def shrink_batch(case):
+    ops = case["ops"]
+    for i in range(len(ops)):
+        yield dict(case, ops=ops[:i] + ops[i + 1:])
+    cb = case["cb"]
+    for k in list(cb):
+        yield dict(case, cb={a: b for a, b in cb.items() if a != k})
+    for k, (yk, cops) in cb.items():
+        for i in range(len(cops)):
+            yield dict(case, cb=dict(cb, **{k: [yk, cops[:i] + cops[i + 1:]]}))
+        if yk > 1:
+            yield dict(case, cb=dict(cb, **{k: [1, cops]}))
+    if len(case["ids"]) > 1:
+        used = set(o[1] for o in ops) | set(o[0] for v in cb.values() for o in v[1])
+        for i in case["ids"]:
+            if i not in used:
+                yield dict(case, ids=[x for x in case["ids"] if x != i])
+    if case["maxb"] != 8:
+        yield dict(case, maxb=8)
+
+
+def nontrivial_batch(case, out):
+    """a set_fade arrived while the callback was awaited, or while a fade of that light was being stepped"""
+    incb = False
+    stepping = set()
+    for r in out.get("trace", []):
+        if r[0] == "cb":
+            incb = True
+            for (i, b, f) in r[2]:
+                if f == case["maxf"] and f > 0:
+                    stepping.add(i)
+        elif r[0] == "cbret":
+            incb = False
+        elif r[0] == "set":
+            if incb or r[2] in stepping:
+                return True
+    return False
+
+
+def describe_batch(case):
+    return "max_fade=%d poll=%d batch=%d lights=%d ops=%d cb-scripts=%d" % (
+        case["maxf"], case["poll"], case["maxb"], len(case["ids"]), len(case["ops"]), len(case["cb"]))
+
+
+BHDR = ("From C09 Require Import Batch.\nDefinition run := brun_case.\nDefinition out_eqb := bcase_out_eqb.\n")
+
+
 def shrink(case):
     ops = case["ops"]
     for i in range(len(ops)):
@@ -563,8 +989,12 @@ def describe(case):
 
 
 SUITES = [
-    Suite("grid", gen_grid, run_history, HDR, coq_grid, oracle, shrink, nontrivial,
-          {"quick": 2000, "thorough": 40000}, worker_init=worker_init, shard=150, describe=describe),
+    Suite("grid", gen_grid, run_history, hdr(), coq_grid, oracle, shrink, nontrivial,
+          {"quick": 1500, "thorough": 40000}, worker_init=worker_init, shard=130, describe=describe),
+    Suite("offgrid", gen_offgrid, run_history, hdr(), coq_grid, oracle, shrink, nontrivial,
+          {"quick": 500, "thorough": 15000}, worker_init=worker_init, shard=130, describe=describe),
+    Suite("batch", gen_batch, run_batch, BHDR, coq_batch, oracle_batch, shrink_batch, nontrivial_batch,
+          {"quick": 400, "thorough": 20000}, shard=50, describe=describe_batch),
     Suite("generic", gen_generic, run_history, None, None, oracle, shrink, nontrivial,
           {"quick": 700, "thorough": 20000}, worker_init=worker_init, describe=describe),
 ]
